@@ -15,7 +15,7 @@ muts = [l.rstrip("\n").split("\t") for l in open(tsv)]
 if only:
     muts = [m for m in muts if only in m[0]]
 known = json.load(open(os.path.join(VERIF, "known_findings.json")))["findings"]
-NW = 10
+NW = int(os.environ.get("NW", "10"))
 os.makedirs(base, exist_ok=True)
 local = threading.local()
 free = list(range(NW))
